@@ -55,6 +55,16 @@ def main():
     if code == 0 and args.tier == 'thorough' and not args.no_selftest:
         from selftest.runner import run_catalogue
         code = run_catalogue(args.prop, mod, args.repo, seed)
+        if code == 0:
+            from selftest.corpus import run_corpora
+            files = set()
+            for q in A.counters['functions']:
+                try:
+                    rp = A.model.func(q).module.relpath
+                except Exception:
+                    continue
+                files.add(rp.split('src/engineio/', 1)[-1])
+            code = run_corpora(args.prop, files, args.repo, seed)
     return code
 
 
